@@ -28,8 +28,7 @@ def run(chk):
     for cls, label in VARIANTS:
         w, q = loc(repo, cls, 'play_card_by_player', 'C05.R1')
         ci, fn = repo.method(cls, 'play_card_by_player', 'C05.R1')
-        if ci.name != cls:
-            raise AnalysisError('C05.R1', f'{cls}.play_card_by_player', 'override not defined on this class')
+        # (the method may be inherited - a template method whose hook the class overrides: paths are enumerated with dyn=cls)
         params = [a.arg for a in fn.args.args]
         if len(params) != 3:
             raise AnalysisError('C05.R1', q, 'expected play_card_by_player(self, card, player)')
